@@ -3,10 +3,11 @@ import Strengths.Driver.Units
 import Strengths.Driver.Grid
 import Strengths.Driver.Engine
 import Strengths.Driver.InitState
+import Strengths.Driver.Stoch
 
 namespace Strengths.Driver
 
 def allOps : List (String × Handler) :=
-  unitsOps ++ gridOps ++ engineOps ++ initStateOps
+  unitsOps ++ gridOps ++ engineOps ++ initStateOps ++ stochOps
 
 end Strengths.Driver
